@@ -160,6 +160,15 @@ OPERATOR_SET = {
         "panics). Explicit list of constructs accepted as not const-evaluable (a diagnostic on the const item or "
         "on the const fn declaration is the expected answer, a correct value is accepted too): assignment to a "
         "`let mut`, `loop`, `while`, a block without tail expression (unit `if` body).",
+    "libfunc-specific folding rules with a numeric bound (ConstFoldingLibfuncInfo table), leg `lfn`, oracle + "
+    "expected value, no Coq model":
+        "storage_base_address_from_felt252 (+ from_base_and_offset) around ADDR_BOUND = 2^251-256; contract_address / "
+        "class_hash try_from_felt252 + to_felt252 around 2^251 (also as const items / const fn); array_new/append/"
+        "len/get/at/pop_front with known contents (index vs known length, u32::MAX); panic_with_felt252 of a "
+        "constant; panic_with_byte_array for lengths 0,1,30,31,32,61,62,63; into_box/unbox of a constant. Operands "
+        "{b-1,b,b+1,2b,2b+-1, the same written as negative literals (b-P), 0,1,2,-1,P-1,1-P} for b in {ADDR_BOUND, "
+        "2^251, 2^128} + seeded. A generated program that does not compile or crashes the compiler is bisected to "
+        "the offending case and reported as a failing input.",
     "explored by the impl-level oracle only (no Coq model)":
         "u256 -> uN / felt252 TryInto, compound const expressions (tuples, structs, enums, if, match, &&, ||, "
         "let-destructuring) through the evaluator's interpreter, const fn calls",
